@@ -40,7 +40,7 @@ theorem parse_print (uni : Bool) (t : Skel) (hw : t.WF Gen.table Gen.ladder) :
 /-- `(A & B) & (~C Mem S)`-like instance: left-nested right-associative operator and a negation
 under a comparison both need (and get) brackets. -/
 def exampleSkel : Skel :=
-  .bin 3 (.bin 3 (.atom "A") (.atom "B")) (.bin 21 (.un 5 (.atom "C")) (.app (.atom "f") (.binder 1 "x" (.atom "x"))))
+  .bin 3 (.bin 3 (.atom [65]) (.atom [66])) (.bin 21 (.un 5 (.atom [67])) (.app (.atom [102]) (.binder 1 [120] (.atom [120]))))
 
 example : exampleSkel.WF Gen.table Gen.ladder :=
   ⟨by decide, by decide, ⟨by decide, by decide, trivial, trivial⟩,
@@ -54,7 +54,7 @@ example : (printSkel Gen.table Gen.ladder false exampleSkel).length = 18 ∧
 the printer model uses, and `table_consistent` ties each to a binder alternative of the grammar -/
 example : binderSpell Gen.table Gen.ladder false 1 = (Gen.table.binders.getD 0 default).ascii ∧
     binderSpell Gen.table Gen.ladder true 0 = Gen.table.lam.unicode ∧
-    printSkel Gen.table Gen.ladder true (.binder 0 "x" (.atom "x")) = [.sym Gen.table.lam.unicode, .id "x", .dot, .id "x"] := by
+    printSkel Gen.table Gen.ladder true (.binder 0 [120] (.atom [120])) = [.sym Gen.table.lam.unicode, .id [120], .dot, .id [120]] := by
   decide +kernel
 
 /-! ### memo table (`pprint.term_ast`) over an abstract term equality -/
